@@ -2741,6 +2741,17 @@ public:
       return;
     }
 
+    if (lhs == rhs) {
+      return;
+    }
+
+    // Every cell of lhs is overwritten. The old cells of lhs, their
+    // ghost variables and the old summary (if lhs was smashed) must
+    // not survive: a ghost variable left in m_cell_ghost_man would be
+    // found again, with its old value, by the next access to the
+    // same cell of lhs.
+    forget_array(lhs);
+
     const array_state &as = lookup_array_state(rhs);
     if (!as.is_smashed()) {
       offset_map_t lhs_om;
